@@ -48,8 +48,11 @@ Lemma effect_copies_identity : forall w m, effect true w m = m.
 Proof. intros w m. destruct w; reflexivity. Qed.
 
 Lemma effect_readonly_identity :
-  forall copies w m, w <> Arxml -> w <> Fibex -> w <> Kcd -> effect copies w m = m.
-Proof. intros copies w m H1 H2 H3. destruct w; try reflexivity; contradiction. Qed.
+  forall copies w m, w <> Arxml -> w <> Fibex -> effect copies w m = m.
+Proof. intros copies w m H1 H2. destruct w; try reflexivity; try contradiction; destruct copies; reflexivity. Qed.
+
+Lemma effect_identity_kcd : forall copies m, effect copies Kcd m = m.
+Proof. intros; apply effect_readonly_identity; discriminate. Qed.
 
 
 (* one lemma per read-only / copying writer (props/C14.v only says `exact`) *)
@@ -222,27 +225,26 @@ Qed.
 
 (* the unfixed tree inside the envelope that excludes all three findings *)
 Lemma effect_unfixed_partial :
-  forall w m, receivers_propagated m -> NoDup (frame_names m) -> NoDup (signal_names m) -> effect false w m = m.
+  forall w m, receivers_propagated m -> NoDup (frame_names m) -> effect false w m = m.
 Proof.
-  intros w m Hp Hf Hs. destruct w; try reflexivity; unfold effect, works_on_copy, normalise.
+  intros w m Hp Hf. destruct w; try reflexivity; unfold effect, works_on_copy, normalise.
   - apply arxml_propagate_id. exact Hp.
   - apply fibex_rename_id. exact Hf.
-  - apply cluster_update_id; assumption.
 Qed.
 
 Lemma after_exports_unfixed_partial :
-  forall ws m, receivers_propagated m -> NoDup (frame_names m) -> NoDup (signal_names m) ->
+  forall ws m, receivers_propagated m -> NoDup (frame_names m) ->
     after_exports false ws m = m.
 Proof.
-  unfold after_exports. induction ws as [|w ws IH]; intros m Hp Hf Hs; cbn [fold_left]; [reflexivity|].
+  unfold after_exports. induction ws as [|w ws IH]; intros m Hp Hf; cbn [fold_left]; [reflexivity|].
   rewrite effect_unfixed_partial by assumption. apply IH; assumption.
 Qed.
 
 Lemma second_export_unfixed_partial_lemma :
   forall (Bytes : Type) (render : writer -> matrix -> Bytes) (ws : list writer) (b : writer) (m : matrix),
-    receivers_propagated m -> NoDup (frame_names m) -> NoDup (signal_names m) ->
+    receivers_propagated m -> NoDup (frame_names m) ->
     render b (after_exports false ws m) = render b m.
-Proof. intros Bytes render ws b m Hp Hf Hs. rewrite (after_exports_unfixed_partial ws m Hp Hf Hs). reflexivity. Qed.
+Proof. intros Bytes render ws b m Hp Hf. rewrite (after_exports_unfixed_partial ws m Hp Hf). reflexivity. Qed.
 
 (* witnesses (replayed on the implementation by harness/p_c14.py) *)
 Definition wit_unpropagated : matrix := [mkFrame [70] [1] [] [mkSignal 5 [2; 3]]].
@@ -255,9 +257,9 @@ Lemma arxml_unfixed_refuted : exists m, effect false Arxml m <> m.
 Proof. exists wit_unpropagated. vm_compute. intro H. discriminate H. Qed.
 Lemma fibex_unfixed_refuted : exists m, effect false Fibex m <> m.
 Proof. exists wit_dup_frames. vm_compute. intro H. discriminate H. Qed.
-Lemma kcd_unfixed_refuted : exists m, effect false Kcd m <> m.
+Lemma cluster_view_refuted : exists m, cluster_view m <> m.
 Proof. exists wit_dup_frames. vm_compute. intro H. discriminate H. Qed.
-Lemma kcd_unfixed_refuted_signals : exists m, NoDup (frame_names m) /\ effect false Kcd m <> m.
+Lemma cluster_view_refuted_signals : exists m, NoDup (frame_names m) /\ cluster_view m <> m.
 Proof.
   exists wit_dup_signals. split.
   - unfold frame_names, wit_dup_signals. cbn [map f_name].
